@@ -179,6 +179,13 @@ pub fn gen(rng: &mut Rng, thorough: bool, out: &mut Sink) {
             }
         }
     }
+    // context-sensitive case mapping and normalization: words, not single characters
+    for w in ["ΟΔΥΣΣΕΥΣ", "ΣΑΣ ΣΑΣ", "Σ", "αΣ", "Σα", "ΑΣ.", "İstanbul", "STRASSE", "straße", "ǅ", "ŉ", "ﬁn", "e\u{0301}\u{0323}", "\u{1100}\u{1161}\u{11a8}", "Å\u{0301}"] {
+        for st in &per_char[1..] {
+            out.push(norm_line(&[st.clone()], 0, true, w));
+        }
+        out.count("context_sensitive_words");
+    }
     // sequences of up to 6 steps, conditionals, positions
     let n = if thorough { 80000 } else { 8000 };
     for _ in 0..n {
